@@ -115,7 +115,12 @@ func c01Check(c c01Case) vfResult {
 
 func c01Gen(t *rapid.T) c01Case {
 	var x []byte
-	switch rapid.IntRange(0, 7).Draw(t, "k") {
+	switch rapid.IntRange(0, 8).Draw(t, "k") {
+	case 8: // a tar archive (long GNU / PAX names included), whole or cut anywhere after its first block
+		x, _ = c18GenArchive(t)
+		if rapid.Bool().Draw(t, "cutarchive") && len(x) > 512 {
+			x = x[:rapid.IntRange(512, len(x)).Draw(t, "cutat")]
+		}
 	case 0:
 		x = rapid.SliceOfN(rapid.Byte(), 0, 64).Draw(t, "rand")
 	case 1, 2, 3:
@@ -318,6 +323,83 @@ func c01Prefixes(t *testing.T) {
 	vfStats.Subchecks["prefixes"] = fmt.Sprintf("every prefix of %d seeds (%d prefixes) x limits {0,len,len+1,3072,MaxUint32}; shard takes every %d-th", len(seeds), idx, nsh)
 }
 
+// c01Cross: every seed header, padded, with every (short) literal of the tree under test
+// written so that it ends at, straddles or starts at the offsets 512, 3072 and 4096: a check
+// that looks for a marker inside a window meets the marker at the edge of that window.
+func c01Cross(t *testing.T) {
+	sh, nsh := vfShard(), vfNShards()
+	maxTok := 8
+	if vfThorough() {
+		maxTok = 64
+	}
+	var toks []string
+	for _, l := range vfDictLits {
+		if len(l) <= maxTok {
+			toks = append(toks, l)
+		}
+	}
+	seeds := vfSeeds()
+	n := int64(0)
+	for si, sd := range seeds {
+		if si%nsh != sh {
+			continue
+		}
+		for _, B := range []int{512, 3072, 4096, -512, -3072, -4096} {
+			// the seed's first 400 bytes, or (negative B) only its first 8: the magic number
+			// without whatever else the real header holds
+			base := sd.Data
+			if B < 0 {
+				B = -B
+				if len(base) > 8 {
+					base = base[:8]
+				}
+			} else if len(base) > 400 {
+				base = base[:400]
+			}
+			x := make([]byte, B+24)
+			copy(x, base)
+			c := c01Case{X: x, Limit: 0}
+			stop := vfWatchdog("C01", "gen", c, 40*time.Second)
+			for _, tok := range toks {
+				for _, k := range []int{0, 2, len(tok)} {
+					p := B - k
+					if p < len(base) || p+len(tok) > len(x) {
+						continue
+					}
+					saved := append([]byte(nil), x[p:p+len(tok)]...)
+					copy(x[p:], tok)
+					err := func() (err error) {
+						defer func() {
+							if pn := recover(); pn != nil {
+								err = fmt.Errorf("panic: %v", pn)
+							}
+						}()
+						for _, L := range []uint32{0, uint32(B)} {
+							if m := vfDetectAt(x, L); m == nil {
+								return fmt.Errorf("Detect returned nil")
+							}
+						}
+						return nil
+					}()
+					n++
+					if err != nil {
+						fc := c01Case{X: append([]byte(nil), x...), Limit: 0}
+						stop()
+						vfEnumFail(t, "C01", "gen", fc, fmt.Errorf("%v (seed %s padded to %d bytes, literal %s written at offset %d)", err, sd.Name, len(x), vfQ([]byte(tok)), p))
+						return
+					}
+					copy(x[p:], saved)
+				}
+			}
+			stop()
+		}
+	}
+	var r vfResult
+	r.Nontrivial, r.Labels, r.Hash, r.N = true, []string{"cross"}, vfHash([]byte("cross"), vfHashU(uint64(sh))), n
+	vfStats.record(r, func() any { return map[string]any{"sub": "cross", "cases": n} })
+	vfStats.Subchecks["cross"] = fmt.Sprintf("%d seeds x offsets {512,3072,4096} x %d literals (<= %d bytes) x 3 alignments x limits {0, offset}; this shard: %d inputs", len(seeds), len(toks), maxTok, n)
+}
+
 func TestVerif_C01(t *testing.T) {
 	defer vfStats.dump()
 	vfStats.Property = "C01"
@@ -332,6 +414,12 @@ func TestVerif_C01(t *testing.T) {
 	}
 	if vfOnlySub("prefixes") && !vfReplayMode() {
 		c01Prefixes(t)
+	}
+	if t.Failed() {
+		return
+	}
+	if vfOnlySub("cross") && !vfReplayMode() {
+		c01Cross(t)
 	}
 	if t.Failed() {
 		return
